@@ -33,12 +33,12 @@ RECIPE_BAD = '''def recipe(field_indexes, box_array):
 '''
 
 PATH_FORMS = [("parent", "rel"), ("parent", "dot"), ("parent", "slash"), ("parent", "abs"), ("parent", "abs_slash"),
-              ("else", "rel"), ("else", "rel_slash"), ("else", "abs"), ("else", "symlink")]
+              ("else", "rel"), ("else", "rel_slash"), ("else", "abs"), ("else", "symlink"), ("parent", "slashdot"), ("else", "slashdot")]
 
 
 def bounds(tier):
     return {"path_forms": PATH_FORMS, "faults": "every counted write point of every successful run "
-            "(quick: path forms rel / slash; thorough: all forms)", "broken_inputs": ["missing_binary", "missing_level_header", "unknown_field", "truncated_binary"]}
+            "(quick: path forms rel / slash; thorough: all forms)", "broken_inputs": ["missing_binary", "missing_level_header", "unknown_field", "truncated_binary", "cut_at_fab_boundary"]}
 
 
 def mesh3():
@@ -278,6 +278,8 @@ def path_form(abs_path, cwd, form):
             os.symlink(abs_path, link)
         return os.path.relpath(link, cwd)
     rel = os.path.relpath(abs_path, cwd)
+    if form == "slashdot":
+        return rel + "/."
     return {"rel": rel, "dot": "./" + rel, "slash": rel + "/", "abs": abs_path, "abs_slash": abs_path + "/",
             "rel_slash": rel + "/"}[form]
 
@@ -358,12 +360,30 @@ def execute(case, env, fail_at=None, breakage=None, opt_index=None):
         with open(victim, "r+b") as f_:
             hdr = f_.readline()
             f_.truncate(len(hdr) + 20)
+    if breakage == "cut_at_fab_boundary":
+        # the interrupted copy ended exactly between two FABs: the first binary file of level 1 that holds several boxes
+        # keeps its first FAB only
+        pref = "state_D" if kind == "chk" else "Cell_D"
+        env.breakage_applied = False
+        for lvn_ in ("Level_1", "Level_0"):
+            lvd = os.path.join(env.p1, lvn_)
+            for fn_ in (sorted(f for f in os.listdir(lvd) if f.startswith(pref)) if os.path.isdir(lvd) else []):
+                with open(os.path.join(lvd, fn_), "rb") as f_:
+                    data_ = f_.read()
+                second = data_.find(b"FAB ", 4)
+                if second > 0:
+                    with open(os.path.join(lvd, fn_), "r+b") as f_:
+                        f_.truncate(second)
+                    env.breakage_applied = True
+                    break
+            if env.breakage_applied:
+                break
     if breakage == "missing_level_header":
         os.remove(os.path.join(env.p1, "Level_0", "state_H" if kind == "chk" else "Cell_H"))
     P = path_form(env.p1, cwd, form)
     P2 = path_form(env.p2, cwd, form) if two else None
     if case["outmode"] in ("explicit", "twice"):
-        out = "out_x" if form in ("rel", "dot", "slash", "rel_slash", "symlink") else os.path.join(env.root, "outabs", "out_x")
+        out = "out_x" if form in ("rel", "dot", "slash", "rel_slash", "symlink", "slashdot") else os.path.join(env.root, "outabs", "out_x")
         if os.path.isabs(out):
             os.makedirs(os.path.dirname(out), exist_ok=True)
         out_abs = os.path.realpath(os.path.join(cwd, out))
@@ -525,16 +545,17 @@ def run_case(case, workdir):
     judge(rec, case, sub, env, r0, must_fail=False)
     env.remove()
     if case["broken"]:
-        for bk in ("missing_binary", "missing_level_header", "unknown_field", "truncated_binary"):
+        for bk in ("missing_binary", "missing_level_header", "unknown_field", "truncated_binary", "cut_at_fab_boundary"):
             if bk == "unknown_field" and bk not in broken:
                 continue
-            if bk == "truncated_binary" and name in NO_DATA:
+            if bk in ("truncated_binary", "cut_at_fab_boundary") and name in NO_DATA:
                 continue
             env = Env(workdir, kind, seed, bk, case.get("names", 0))
             r = execute(case, env, breakage=bk)
             sub2 = dict(sub, run=bk)
             rec.exe(key + [bk], nontrivial=True)
-            judge(rec, case, sub2, env, r, must_fail=(bk in broken) or (bk == "truncated_binary" and name in READS_ALL))
+            judge(rec, case, sub2, env, r, must_fail=(bk in broken) or (bk == "truncated_binary" and name in READS_ALL)
+                  or (bk == "cut_at_fab_boundary" and name in READS_ALL and getattr(env, "breakage_applied", False)))
             env.remove()
     if case["faults"] and r0["outcome"][0] == "ok" and r0["points"] > 0:
         for k in range(1, r0["points"] + 1):
